@@ -381,7 +381,8 @@ Udptl == << Fr(<<"udptl">>, "seq", 2), Ln(<<"udptl">>, "plen", 2, "primary", 1, 
 (* A text leaf addresses one token of one line of a genuine description:   *)
 (*   s    the line prefix that selects the line ("a=rtpmap:", "m=", ...)   *)
 (*   n    name; w = index of the token in the rest of the line, tokens     *)
-(*        separated by the characters the harness knows for that prefix    *)
+(*        separated by blanks (and '/' for a=rtpmap), or by the characters  *)
+(*        given in `of`                                                     *)
 (*   k    num (w-independent; `unit` = bit width of the integer the code   *)
 (*        parses it into), word (enumerated keyword, unknown = "zz"),       *)
 (*        text (free text), line (the whole line: the repeatable element)  *)
@@ -391,6 +392,8 @@ TNum(s, n, idx, bits) == [L0 EXCEPT !.s = s, !.n = n, !.k = "num", !.w = idx, !.
 TWord(s, n, idx)      == [L0 EXCEPT !.s = s, !.n = n, !.k = "word", !.w = idx, !.g = <<"sdp">>]
 TText(s, n, idx)      == [L0 EXCEPT !.s = s, !.n = n, !.k = "text", !.w = idx, !.free = TRUE, !.g = <<"sdp">>]
 TLine(s, n)           == [L0 EXCEPT !.s = s, !.n = n, !.k = "line", !.el = TRUE, !.g = <<"sdp">>]
+\* tokens separated by the characters in `seps` instead of blanks (parameter lists: "a=fmtp:111 minptime=10;useinbandfec=1")
+Seps(l, seps)         == [l EXCEPT !.of = seps]
 
 SdpSessionCore ==
   << TLine("v=", "v.line"), TNum("v=", "version", 0, 32),
@@ -431,6 +434,29 @@ SdpApplication ==
      TLine("a=sctp-port:", "sctpport.line"), TNum("a=sctp-port:", "sctpport", 0, 16),
      TLine("a=max-message-size:", "maxmsg.line"), TNum("a=max-message-size:", "maxmsg", 0, 32) >>
 
+\* sub-tokens of parameter lists in the browser-style offer (numeric parameters are parsed into integers by the
+\* capability extraction and the RTX association)
+SdpParams ==
+  << Seps(TNum("a=fmtp:", "opus.minptime", 2, 32), " ;="), Seps(TNum("a=fmtp:", "opus.fec", 4, 8), " ;="),
+     Seps(TNum("a=fmtp:96 ", "h264.asym", 1, 8), " ;="), Seps(TNum("a=fmtp:96 ", "h264.pmode", 3, 8), " ;="),
+       Seps(TText("a=fmtp:96 ", "h264.plid", 5), " ;="),
+     TLine("a=fmtp:97 ", "rtxfmtp.line"), Seps(TNum("a=fmtp:97 ", "rtx.apt", 1, 8), " ;="),
+     TLine("a=rtcp:", "rtcp.line"), TNum("a=rtcp:", "rtcp.port", 0, 16),
+     Seps(TText("a=ssrc:", "ssrc.cname", 2), " :"),
+     TLine("a=msid-semantic:", "msid.line"),
+     TLine("a=rtpmap:97 ", "rtxmap.line"), Seps(TNum("a=rtpmap:97 ", "rtx.rate", 1, 32), " /") >>
+
+\* T.38 fax re-INVITE (image section; to_image_capabilities parses the numeric attributes)
+SdpT38Leaves ==
+  << TLine("m=image ", "mimg.line"), TNum("m=image ", "mimg.port", 0, 16), TWord("m=image ", "mimg.proto", 1),
+       TWord("m=image ", "mimg.fmt", 2),
+     TLine("a=T38FaxVersion:", "t38ver.line"), TNum("a=T38FaxVersion:", "t38.version", 0, 8),
+     TLine("a=T38MaxBitRate:", "t38rate.line"), TNum("a=T38MaxBitRate:", "t38.maxbitrate", 0, 32),
+     TLine("a=T38FaxRateManagement:", "t38rm.line"), TWord("a=T38FaxRateManagement:", "t38.ratemgmt", 0),
+     TLine("a=T38FaxMaxBuffer:", "t38buf.line"), TNum("a=T38FaxMaxBuffer:", "t38.maxbuffer", 0, 16),
+     TLine("a=T38FaxMaxDatagram:", "t38dg.line"), TNum("a=T38FaxMaxDatagram:", "t38.maxdatagram", 0, 16),
+     TLine("a=T38FaxUdpEC:", "t38ec.line"), TWord("a=T38FaxUdpEC:", "t38.udpec", 0) >>
+
 SdpSimulcast ==
   << TLine("a=rid:", "rid.line"), TText("a=rid:", "rid.id", 0), TWord("a=rid:", "rid.dir", 1), TText("a=rid:", "rid.params", 2),
      TLine("a=simulcast:", "sim.line"), TWord("a=simulcast:", "sim.dir", 0), TText("a=simulcast:", "sim.list", 1) >>
@@ -440,9 +466,10 @@ SdpCrypto ==
        TText("a=crypto:", "crypto.key", 2) >>
 
 \* genuine descriptions: browser-style WebRTC offer (audio+video+application), simulcast offer, SDES (RTP/SAVP) offer
-SdpWebrtc    == SdpSessionCore \o SdpBundle \o SdpMediaCore \o SdpMediaIce \o SdpApplication
+SdpWebrtc    == SdpSessionCore \o SdpBundle \o SdpMediaCore \o SdpMediaIce \o SdpApplication \o SdpParams
 SdpSim       == SdpSessionCore \o SdpBundle \o SdpMediaCore \o SdpMediaIce \o SdpSimulcast
 SdpSdes      == SdpSessionCore \o SdpMediaCore \o SdpCrypto
+SdpT38       == SdpSessionCore \o SdpT38Leaves
 \* a candidate string alone (IceCandidate::from_sdp, add_ice_candidate)
 CandidateLine ==
   << TLine("candidate:", "cand.line"), TText("candidate:", "cand.foundation", 0), TNum("candidate:", "cand.component", 1, 16),
@@ -477,7 +504,7 @@ AllTemplates == <<
   T("sctp.abort", SctpAbort), T("sctp.shutdown", SctpShutdown), T("sctp.bundle", SctpBundle),
   T("dcep.open", DcepOpen), T("dcep.ack", DcepAck),
   T("udptl.packet", Udptl),
-  T("sdp.webrtc", SdpWebrtc), T("sdp.simulcast", SdpSim), T("sdp.sdes", SdpSdes), T("sdp.candidate", CandidateLine)
+  T("sdp.webrtc", SdpWebrtc), T("sdp.simulcast", SdpSim), T("sdp.sdes", SdpSdes), T("sdp.t38", SdpT38), T("sdp.candidate", CandidateLine)
 >>
 
 TemplateNames == {AllTemplates[i].name : i \in 1..Len(AllTemplates)}
